@@ -193,6 +193,17 @@ def run_unit(unit, repo, tier="quick", seed=0, do_vacuity=True):
         r.wall_s = time.time() - t0
         return r
 
+    # functions that call a helper pulled in without a contract (vxgen auto-fn), and those helpers themselves:
+    # a proof failure there may only mean "the helper has no contract" - undecided, never a violation
+    tainted = set()
+    auto = meta.get("auto_pulled") or []
+    if auto:
+        gl_ = g.lines
+        for f in meta["functions"]:
+            short = f["fn"].split("::")[-1]
+            body_ = "\n".join(gl_[f["first"] - 1:f["last"]])
+            if short in auto or any(re.search(r"\b%s\s*\(" % re.escape(a_), body_.split("{", 1)[-1]) for a_ in auto if a_ != short):
+                tainted.add(f["fn"])
     for d in sem:
         msg = d.get("message", "")
         spans = d.get("spans", [])
@@ -229,6 +240,10 @@ def run_unit(unit, repo, tier="quick", seed=0, do_vacuity=True):
             r.reason = "verification failure outside any obligation: %s" % msg
             continue
         o = obl[oid]
+        if o["fn"] in tainted:
+            r.status = "undecided"
+            r.reason = "proof failure in %s, which calls (or is) a helper pulled in without a contract: %s" % (o["fn"], ", ".join(auto))
+            continue
         o["status"] = "failed"
         where = ""
         if prim:
